@@ -197,6 +197,15 @@ class Lifter:
             for t in s.targets:
                 self._assign(t, val, env, fn, depth, owner)
                 if isinstance(t, ast.Name):
+                    # a local bound to a field keeps what is known about
+                    # the field being None (`sigma = self._sigma`)
+                    k0 = U(v) + ' is None'
+                    k1 = t.id + ' is None'
+                    if isinstance(v, (ast.Name, ast.Attribute)) \
+                            and k0 in self.flags:
+                        self.flags[k1] = self.flags[k0]
+                    else:
+                        self.flags.pop(k1, None)
                     if shape is not None:
                         env[t.id + '.shape'] = shape
                     elif (t.id + '.shape') in env and not (
